@@ -177,6 +177,12 @@ jpeg_mem_dest_tj(j_compress_ptr cinfo, unsigned char **outbuffer,
   dest->pub.term_destination = term_mem_destination;
   if (dest->buffer == *outbuffer && *outbuffer != NULL && alloc)
     reused = TRUE;
+  else
+    /* Any buffer that this destination manager allocated during a previous
+     * compression operation was handed over to the caller, so it must not be
+     * freed when the new buffer has to be enlarged.
+     */
+    dest->newbuffer = NULL;
   dest->outbuffer = outbuffer;
   dest->outsize = outsize;
   dest->alloc = alloc;
